@@ -113,11 +113,17 @@ class Engine(HeapMixin, ExprMixin, AccessMixin, CallMixin, StmtMixin):
     self.yield_counter = {}
     self.relies = {}
     self._ob_names = {}
+    self.ghost_depth = 0
+    self.pure_depth = 0
+    self.ghost_hits = set()
+    self.assumes = []
 
   # ------------------------------------------------------------------ solver helpers
   def feasible(self, st, strong=False):
     """False only when the path condition is refuted.  First the quantifier-free part
     (fast, complete for it); the full condition only under a short budget."""
+    if self.spec_depth or self.pure_depth:
+      return True     # spec clauses / merged pure calls: all paths are merged, nothing to prune
     self.feas_calls += 1
     qf = [c for c in st.pc if not _has_quant(c)]
     s = z3.Solver()
@@ -296,6 +302,9 @@ class Engine(HeapMixin, ExprMixin, AccessMixin, CallMixin, StmtMixin):
           self.check_frame(s1, entry, modkeys, 'frame[%s]' % name, fnode)
       else:
         raise Unsupported('%s escapes the function body' % kind)
+    for g in spec.ghost:
+      if (spec.name, g.get('after', g.get('before')).strip()) not in self.ghost_hits:
+        raise Unsupported('ghost anchor %r not found in %s (source drift)' % (g.get('after', g.get('before')), name))
     if res.exit_reached == 0:
       raise Unsupported('vacuous: no feasible path reaches an exit of %s' % name)
 
